@@ -640,6 +640,13 @@ class C10:
                     # row they log and in the containers (max_step is a notion of the Jacobian steps only)
                     bref = None
                     log = w.raw_log()
+                    seen = [float(x) for x in w.knob_values()] + [float(x) for r in log["knobs"][n0:] for x in r]
+                    if any(x != x or x in (float("inf"), float("-inf")) for x in seen):
+                        # scipy's trust-region / L-BFGS-B code can return NaN for a knob without limits (its bounds are then
+                        # +-1e200 and a knob the targets do not depend on has a zero Jacobian column): nothing C10 states is
+                        # about such a point, and nothing that follows can be judged from it
+                        count("run_left_nonfinite_knobs")
+                        break
                     for j, act in enumerate(vfb):
                         if act:
                             continue
